@@ -30,6 +30,8 @@ S31 == {<<3, 1>>}
 S32 == {<<3, 2>>}
 S42 == {<<4, 2>>, <<3, 1>>}
 S43 == {<<4, 3>>}
+S52 == {<<5, 2>>}
+Ent01 == {0, 1}
 NoDr == {<<-1, -1>>}
 Dr012 == {<<0, 0>>, <<0, 1>>, <<1, 1>>, <<1, 2>>, <<2, 2>>, <<0, 3>>}
 Dr3 == {<<0, 1>>, <<1, 2>>, <<2, 2>>}
